@@ -520,6 +520,7 @@ def run(ctx: Any, prog: Program) -> None:
     ctx.rule('C14.X6', 'stub elements created by the parsers carry the UUID read from the file; writers never queue a stub as an element', floor=4)
     ctx.rule('C14.X7', 'the attribute count and the loop skipping the name attribute use the same criterion', floor=1)
     ctx.rule('C14.X8', 'KV1 bridge: both directions use the same type names, keys and reserved names', floor=5)
+    ctx.rule('C14.X9', 'index tables (values that can be 0) are consulted with `in` / `is None`, never through the truthiness of .get()', floor=1)
 
     vt = fold.enum_table('ValueType')
     members: List[EnumMember] = []
@@ -604,6 +605,33 @@ def run(ctx: Any, prog: Program) -> None:
                 undecided = '[' in rs or '[' in ws
                 ctx.check('C14.X3', rs == ws and not undecided, dmx, eb, f'{label}: the reader consumes `{rs}` but the writer produces `{ws}`' + (' (undecided gate)' if undecided else ''),
                           func='Element.export_binary', text=label)
+    # ---- X9: zero is a valid index -------------------------------------------------------------------------------------------
+    # tables whose values are positions (`{key: 0}`, `tbl[k] = len(seq)`, enumerate indexes): `tbl.get(k)` is falsy for the entry at
+    # position 0 - in export_binary that entry is the root element, which then looks unseen and is written a second time
+    n_tbl = 0
+    for qn, fns in dmx.all_funcs().items():
+        for fn in fns:
+            index_tables: Set[str] = set()
+            for a in ast.walk(fn):
+                if isinstance(a, (ast.Assign, ast.AnnAssign)):
+                    tg = a.targets[0] if isinstance(a, ast.Assign) else a.target
+                    v = a.value
+                    if isinstance(tg, ast.Name) and isinstance(v, ast.Dict) and v.values and all(isinstance(x, ast.Constant) and isinstance(x.value, int) and not isinstance(x.value, bool) for x in v.values):
+                        index_tables.add(tg.id)
+                    if isinstance(tg, ast.Subscript) and isinstance(tg.value, ast.Name) and isinstance(v, ast.Call) and dotted(v.func) == 'len':
+                        index_tables.add(tg.value.id)
+            if not index_tables:
+                continue
+            n_tbl += len(index_tables)
+            for g in ast.walk(fn):
+                if isinstance(g, ast.Call) and isinstance(g.func, ast.Attribute) and g.func.attr == 'get' and isinstance(g.func.value, ast.Name) and g.func.value.id in index_tables and len(g.args) == 1:
+                    par = dmx.parents.get(g)
+                    truthy = isinstance(par, (ast.If, ast.While, ast.BoolOp, ast.IfExp)) or (isinstance(par, ast.UnaryOp) and isinstance(par.op, ast.Not))
+                    ctx.check('C14.X9', not truthy, dmx, g, f'`{ast.unparse(par)[:70]}` tests the truthiness of `{ast.unparse(g)}`, but `{g.func.value.id}` maps to positions and position 0 (the root element) is falsy: '
+                              'the root is taken for unseen, appended to the element table again, and every reference to it points at the copy', func=qn, text=f'{qn}: {g.func.value.id}.get() used as a truth value')
+            ctx.check('C14.X9', True, dmx, fn, 'index tables consulted with in / is None', func=qn, text=f'{qn}: index tables {sorted(index_tables)}')
+    if n_tbl < 1:
+        raise AnalysisError('X9: no index table found in dmx.py (elem_to_ind of export_binary confirmed by hand)')
     # ---- X4 ------------------------------------------------------------------------------------------------
     defined: Dict[str, ast.AST] = {}
     structs: Dict[str, str] = {}
@@ -857,6 +885,7 @@ def run(ctx: Any, prog: Program) -> None:
 
 
 MUTANTS: List[Dict[str, Any]] = [
+    {'id': 'root_index_zero_taken_for_missing', 'file': 'dmx.py', 'find': "                        if not isinstance(subelem, StubElement) and subelem.uuid not in elem_to_ind:", 'replace': "                        if not isinstance(subelem, StubElement) and not elem_to_ind.get(subelem.uuid):", 'expect': 'C14.X9'},
     {'id': 'matrix_text_rows_are_columns', 'file': 'dmx.py', 'find': "    return (\n        f'{mat[0, 0]} {mat[0, 1]} {mat[0, 2]} 0.0\\n'\n        f'{mat[1, 0]} {mat[1, 1]} {mat[1, 2]} 0.0\\n'\n        f'{mat[2, 0]} {mat[2, 1]} {mat[2, 2]} 0.0\\n'\n        '0.0 0.0 0.0 1.0'\n    )", 'replace': "    rows = [' '.join([str(mat[x, y]) for x in range(3)]) + ' 0.0' for y in range(3)]\n    rows.append('0.0 0.0 0.0 1.0')\n    return '\\n'.join(rows)", 'expect': 'C14.X4'},
     {'id': 'matrix_text_rows_by_comprehension', 'file': 'dmx.py', 'find': "    return (\n        f'{mat[0, 0]} {mat[0, 1]} {mat[0, 2]} 0.0\\n'\n        f'{mat[1, 0]} {mat[1, 1]} {mat[1, 2]} 0.0\\n'\n        f'{mat[2, 0]} {mat[2, 1]} {mat[2, 2]} 0.0\\n'\n        '0.0 0.0 0.0 1.0'\n    )", 'replace': "    rows = [' '.join([str(mat[y, x]) for x in range(3)]) + ' 0.0' for y in range(3)]\n    rows.append('0.0 0.0 0.0 1.0')\n    return '\\n'.join(rows)", 'expect': None},
     {'id': 'array_code_ge', 'file': 'dmx.py', 'find': "                if attr_type_data > ARRAY_OFFSET:", 'replace': "                if attr_type_data >= ARRAY_OFFSET:", 'expect': 'C14.X1'},
